@@ -25,7 +25,8 @@ META = {
             "equality/hash lets the segment of a target on a matching scale be answered by the cliff part another target needs. (5) every "
             "coupling a segment asks for (compute_a, compute_aem_list; all schemes, threshold or not, QED or not) is requested in the "
             "segment's own flavour number - the coupling object's default switches exactly on a matching scale."
-            " The identity of recipes is also evaluated: _create on a target on a matching scale and one beyond it keeps the shared segment twice (final / cliff) under different file names.",
+            " The identity of recipes is also evaluated: _create on a target on a matching scale and one beyond it keeps the shared segment twice (final / cliff) under different file names."
+            " A final segment is computed as a final segment also when the store already holds the same segment computed as a cliff (parts.evolve in one evaluator, shared with C01).",
     "note": "Necessary conditions: the O(epsilon) bound on numbers needs execution and is not decided.",
     "technique": "exhaustive partial evaluation over orderings (finite) + truth tables + dataclass identity rule + partial evaluation of the coupling requests with a recording coupling object",
     "engine": "sa",
@@ -78,6 +79,11 @@ def run(chk):
     # the identity shortcut of Operator.compute is a window (isclose) in the target scale: inside it the operator is replaced by the
     # exact identity, which is continuous only where the operator tends to the identity
     shortcut_rule(chk, src, rule="identity-shortcut-only-where-the-operator-is-the-identity")
+    # a final segment is never answered by the part of its cliff twin (same end points, other flag), whatever the store holds or an
+    # earlier request left behind: in the expanded scheme the two differ by the scale-variation factor, a jump at the matching scale
+    from .c01 import evolve_uses_its_own_operator
+
+    evolve_uses_its_own_operator(chk, src, rule="final-segment-is-computed-as-a-final-segment")
     n_tab = mu2_table(chk, src, pe, rule="segment-couplings-table")
     chk.floor("mu2 table rows", n_tab, 6)
     chk.note(cases=n_cases, files=["src/eko/runner/recipes.py", "src/eko/evolution_operator/__init__.py"])
